@@ -59,7 +59,10 @@ def knownGaps : List (String × String × String) := [
   ("evaluate__pow", "pow", "ZeroDivisionError"),
   ("evaluate__round_half_to_even", "float()", "ValueError"),
   ("evaluate__substring", "math()", "OverflowError"),
-  ("evaluate__substring", "math()", "ValueError")]
+  ("evaluate__substring", "math()", "ValueError"),
+  -- helper `double` of numeric_equal_promoted (xpath2/_xpath2_functions.py, added by a C08 fix): float(x)
+  -- of a numeric operand, only OverflowError handled; ValueError needs a non-numeric x: unreachable
+  ("double", "float()", "ValueError")]
 
 /-- one generated row: file, function, operation kinds in the `try` body, handler classes -/
 abbrev TryRow := String × String × List String × List String
